@@ -40,6 +40,8 @@ THEOREMS = [
     "Nix.C20.container_handles_owned",
     "Nix.C20.path_addressing_depends_on_handle",
     "Nix.C20.handle_sites_owned_or_section",
+    "Nix.C20.container_items_are_their_entries",
+    "Nix.C20.link_handles_of_the_copy_are_new",
     "Nix.C20.copy_complete",
     "Nix.C20.internal_links",
     "Nix.C20.ids_kept",
@@ -116,7 +118,9 @@ MANIFEST = {
                   "object an entry point copies given the handle it is called with (Store/CopyHandle.lean: the source named "
                   "by the handle's HDF5 object - copy_section, every handle - or by a path below the handle's parent - the "
                   "other entry points, every handle whose parent owns the object; Generated/HandleSites.lean: every "
-                  "constructor call of an entity class constructs the handle with the owning parent, or hands out a Section). "
+                  "constructor call of an entity class constructs the handle with the owning parent, or hands out a Section; the "
+                  "two _inst_item methods build the handle on the very entry they were asked for, so the members a copy's "
+                  "link lists hand out are objects of the copy). "
                   "Tied to the code (a) by an ast "
                   "translator that renders H5Group.copy (rename, id regeneration, guards of the id visitor) and the "
                   "eight copy entry points as data, with theorems that the interpretation of the generated shapes is the "
